@@ -14,7 +14,7 @@ from sx.harness import exc_site
 
 PROPERTY = "C17"
 LEVEL = "model_checking"
-OPTIONS = {"quick": {"max_paths": 100000, "unit_budget_s": 900}, "thorough": {"max_paths": 1000000, "unit_budget_s": 3000}}
+OPTIONS = {"quick": {"max_paths": 100000, "unit_budget_s": 600}, "thorough": {"max_paths": 1000000, "unit_budget_s": 3000}}
 BOUNDS = {
     "quick": {"sentences": "16 covering clause combinations of the three grammars", "quoted strings": "13 piece patterns (normal / non-ASCII / \\\\27 / \\\\5c / \\\\5C, up to 3 pieces) in the first quoted string", "spacing": "every SP position set to 2 and 3, every WSP position set to 0 and 2, one position at a time", "totality": "2 symbolic characters (U+0000..U+07FF) replacing every position of 6 sentences"},
     "thorough": {"spacing": "quick + all pairs of positions for the full sentences", "totality": "all 16 sentences, replace and insert"},
